@@ -941,6 +941,23 @@ func c13GetDelay(c *Ctx) {
 					if grown == maxDelay {
 						grown = base.Args[1]
 					}
+					// the factor is a float (1.5 is a legal factor): it must enter the product as it is, the previous delay
+					// being converted to floating point — converting the factor to an integer type truncates it
+					factorDirect := false
+					grown.Walk(func(t *T) {
+						if len(t.Args) == 2 && (t.Args[0] == factor || t.Args[1] == factor) {
+							other := t.Args[0]
+							if other == factor {
+								other = t.Args[1]
+							}
+							if other.Contains(last0) && other.Op == "app" && strings.HasPrefix(other.Aux, "conv:float") {
+								factorDirect = true
+							}
+						}
+					})
+					if !factorDirect && grown.Contains(last0) && grown.Contains(factor) {
+						bad("the backoff product must be computed in floating point with the delay factor unconverted (a fractional factor such as 1.5 must not be truncated)")
+					}
 					if !grown.Contains(last0) || !grown.Contains(factor) || containsRand(p, grown) {
 						bad("the backoff must multiply the previous un-jittered backoff delay (lastDelay) by the delay factor: recomputing from the base delay is unbounded before the clamp and jitter must not accumulate")
 					}
